@@ -189,6 +189,36 @@ pub broadcast proof fn lemma_announced_told(w0: ZmqFramedWrite, w1: ZmqFramedWri
 }
 
 impl SubSocketBackend {
+    // stand-in for `SocketBackend::monitor(&self) -> &Mutex<..>` (shared borrow of interior-mutable data -> &mut, D7)
+    fn monitor(&mut self) -> (r: &mut Mutex<Option<mpsc::Sender<SocketEvent>>>)
+        ensures *r == old(self).socket_monitor, final(self).socket_monitor == *final(r),
+            final(self).peers == old(self).peers, final(self).subs == old(self).subs, final(self).round_robin == old(self).round_robin,
+            final(self).fair_queue_inner == old(self).fair_queue_inner, final(self).socket_type == old(self).socket_type,
+    { &mut self.socket_monitor }
+// a failed peer is forgotten - that peer and no other (the others must keep hearing about subscription changes)
+//@ item src/sub.rs :: impl MultiPeerBackend for SubSocketBackend / fn peer_disconnected
+//@ name SubSocketBackend::peer_disconnected
+//@ inherent
+//@ receiver-mut
+//@ spec
+//@|        ensures
+//@|            final(self).peers@ == old(self).peers@.remove(*peer_id),
+//@|            subs_of(*final(self)) == subs_of(*old(self)),
+//@|            agrees(*old(self)) ==> agrees(*final(self)),
+//@ end
+// C01 / C04: the socket announces its own type
+//@ item src/sub.rs :: impl SubSocketBackend / fn with_options
+//@ ret r
+//@ spec
+//@|        ensures r.socket_type == socket_type, r.peers@ == Map::<PeerIdentity, Peer>::empty(),
+//@ end
+//@ item src/sub.rs :: impl SocketBackend for SubSocketBackend / fn socket_type
+//@ name SubSocketBackend::socket_type
+//@ inherent
+//@ ret r
+//@ spec
+//@|        ensures r == self.socket_type,
+//@ end
 // C13, late joiners: the new peer is sent the whole current set BEFORE it is registered
 //@ item src/sub.rs :: impl MultiPeerBackend for SubSocketBackend / fn peer_connected
 //@ name SubSocketBackend::peer_connected
@@ -314,6 +344,17 @@ pub proof fn lemma_told_prefix_all(w: ZmqFramedWrite, order: Seq<Seq<u8>>, set: 
     assert(order.subrange(0, order.len() as int) =~= order);
 }
 
+impl SubSocket {
+//@ item src/sub.rs :: impl Socket for SubSocket / fn with_options
+//@ name SubSocket::with_options
+//@ inherent
+//@ ret r
+//@ spec
+//@|        ensures r.backend.socket_type is SUB, r.backend.peers@ == Map::<PeerIdentity, Peer>::empty(),
+//@|            // the invariant of C13 holds for a new socket (no peers yet)
+//@|            agrees(*r.backend),
+//@ end
+}
 /// one peer before / after `process_subs(tag t)`: exactly one write was attempted on its connection, and either the
 /// announcement is on the wire or the connection failed (nothing new on the wire)
 pub closed spec fn told_or_failed(p0: Peer, p1: Peer, tag: u8, t: Seq<u8>) -> bool {
